@@ -666,3 +666,35 @@ def bam_pace(ctx, L, rule="R-BAM-PACE"):
                 ctx.holds(rule, inst)
     if m == 0:
         ctx.violated(rule, L.job, "%s connection-mode pacing" % L.tag, "the configured minimum DT interval is not honoured by the burst loop", L.job.node)
+
+
+def burst_bound(ctx, L, rule="R-BURST-BOUND"):
+    """originator, job pass: a data packet is sent only while its index is below the packet count - the test that admits the next packet is
+    strict.  With `<=` a CTS that arrives after the last packet (or the broadcast pacing after the last packet) sends one packet beyond the
+    end of the message (J1939-22: IndexError in the job thread)."""
+    from .common import lits
+    res = {}
+    for r in scan_runs(ctx, L, "_snd_buffer", unroll=1):
+        if r.term in ("raise", "cut"):
+            continue
+        dts = L.calls(r, "__send_tp_dt")
+        if not dts:
+            continue
+        gl = lits(r.guards(dts[0][0]))
+        idx = lambda y: y[0] == "sub" and y[2] == ("c", "next_packet_to_send")
+        tot = lambda y: y[0] == "sub" and y[2] == ("c", L.npk)
+        strict = any(g[0] == "cmp" and g[1] == "<" and p is True and idx(g[2]) and tot(g[3]) for g, p in gl)
+        loose = any(g[0] == "cmp" and g[1] == "<" and p is False and tot(g[2]) and idx(g[3]) for g, p in gl)
+        if strict or loose:
+            key = "%s job pass: a data packet is sent only while next_packet_to_send < %s" % (L.tag, L.npk)
+            if strict and not loose:
+                res.setdefault(key, None)
+            else:
+                res[key] = dts[0][1].node
+    for key, bad in res.items():
+        if bad is None:
+            ctx.holds(rule, key)
+        else:
+            ctx.violated(rule, L.job, key, "the admitting test also lets index == count through: one packet beyond the end of the message is sent", bad)
+    if not res:
+        ctx.unknown(rule, "%s: admitting test of the burst loop not found" % L.job.qual)
